@@ -151,6 +151,12 @@ def solve_all(f, X):
                             out[('primal', 'override', ker)] = cl.Problem(cl.MAX, gamma, [con]).solve(verbose=False)
                         except RuntimeError as e:
                             out[('primal', 'override', ker)] = ('construction-error', str(e)[:50])
+                # a covers dict given by the user is the user's: constructing a constraint from it leaves it as it was, so that the same
+                # dict can be given to another constraint on the same exponents
+                shared = {i: cv.copy() for i, cv in covers.items()}
+                cl.PrimalSageCone(L.c, L.alpha, None, 'shared1', covers=shared, settings={'sum_age_force_equality': False})
+                if any(not np.array_equal(shared[i], covers[i]) for i in covers):
+                    out[('primal', 'shared-covers-dict', 'modified')] = ('covers-modified', [int(i) for i in covers if not np.array_equal(shared[i], covers[i])])
                 for feq in (False, True):
                     # with full covers every term lies in a cover, so forcing equality is without loss of generality
                     con = cl.PrimalSageCone(L.c, L.alpha, None, 'full', covers={i: cv.copy() for i, cv in covers.items()},
@@ -165,6 +171,10 @@ def solve_all(f, X):
 def compare(out, f7, X, ub):
     """returns (violation or None, known-finding hit or None)"""
     known = None
+    for k, v in out.items():
+        if v[0] == 'covers-modified':
+            return ('constructing a PrimalSageCone from a user covers dict (full covers) changed the dict in place at indices %s: a second '
+                    'constraint given the same dict gets other covers' % (v[1],)), None
     # a constructor that refuses the constraint as infeasible says the same as a solve that returns -inf
     out = {k: (('solved', -math.inf) if (v[0] == 'construction-error' and k[0] == 'primal') else v) for k, v in out.items()}
     ok = {k: v for k, v in out.items() if v[0] == 'solved' and isinstance(v[1], float) and not math.isnan(v[1])}
@@ -257,6 +267,11 @@ def run(ctx):
         if why:
             ctx.problem('oracle', 'property fails on the implementation: ' + why, inputs={'suite': 'constrained_lattice'}, failing_input_found=True)
             break
+    why = probe_override_conditional()
+    ctx.suites['override_conditional_dual'] = {'cases': 8, 'failure': why}
+    ctx.evaluations += 8
+    if why:
+        ctx.problem('oracle', 'property fails on the implementation: ' + why, inputs={'suite': 'override_conditional_dual'}, failing_input_found=True)
     why = probe_kernel_scale()
     ctx.suites['kernel_basis_small_scale'] = {'cases': 3, 'failure': why}
     ctx.evaluations += 3
@@ -337,6 +352,45 @@ def constrained_lattice(rng):
         elif (math.isfinite(v[1]) != math.isfinite(ref[1])) or (math.isfinite(v[1]) and abs(v[1] - ref[1]) > 1e-4 * (1 + abs(ref[1]))):
             return ('constrained relaxation (family %d): value %r with options (form, presolve, compact_dual, force_equality)=%s but %r with %s'
                     % (fam, ref[1], ref[0], v[1], k))
+    return None
+
+
+def probe_override_conditional():
+    """a per-constraint override of a cover-presolve option has the effect of the same option set globally, also for the cones of a
+    conditional (X given) relaxation in dual form"""
+    import sageopt.coniclifts as cl
+    import sageopt.coniclifts.constraints.set_membership.sage_cones as sc
+    from sageopt.symbolic.signomials import SigDomain
+    saved = dict(sc.SETTINGS)
+    alpha = np.array([[0.0, 0.0], [0.0, 1.0], [1.0, 0.0]])
+    cvec = np.array([0.0, 1.0, -0.5])
+    out = {}
+    try:
+        with warnings.catch_warnings():
+            warnings.simplefilter('ignore')
+            for key in ('heuristic_reduction', 'presolve_trivial_age_cones'):
+                for val in (False, True):
+                    for how in ('global', 'override'):
+                        sc.SETTINGS.clear()
+                        sc.SETTINGS.update(saved)
+                        X = SigDomain(2, AbK=(np.array([[-1.0, 1.0]]), np.array([0.0]), [cl.Cone('+', 1)]), gts=[], eqs=[], check_feas=False)
+                        v = cl.Variable(shape=(3,), name='ovd_v')
+                        if how == 'global':
+                            sc.SETTINGS[key] = val
+                            con = cl.DualSageCone(v, alpha, X, 'ovd', c=cl.Expression(cvec))
+                        else:
+                            sc.SETTINGS[key] = not val
+                            con = cl.DualSageCone(v, alpha, X, 'ovd', c=cl.Expression(cvec), settings={key: val})
+                        out[(key, val, how)] = cl.Problem(cl.MIN, float(cvec[1]) * v[1] + float(cvec[2]) * v[2], [con, v[0] == 1]).solve(verbose=False)
+    finally:
+        sc.SETTINGS.clear()
+        sc.SETTINGS.update(saved)
+    for key in ('heuristic_reduction', 'presolve_trivial_age_cones'):
+        for val in (False, True):
+            a, b = out[(key, val, 'global')], out[(key, val, 'override')]
+            if a[0] != b[0] or (math.isfinite(a[1]) != math.isfinite(b[1])) or (math.isfinite(a[1]) and abs(a[1] - b[1]) > 1e-5 * (1 + abs(a[1]))):
+                return ('dual SAGE bound of exp(x1) - 0.5 exp(x0) on {x0 <= x1}: %r with %s=%s set globally, %r with the same value given as a '
+                        'per-constraint override' % (a, key, val, b))
     return None
 
 
